@@ -462,6 +462,10 @@ impl Sub {
 /// message counting from 0 per stream (mod 2^16), TSNs consecutive from `t0` (mod 2^32). DCEP
 /// (PPID 50) is sent unordered with SSN 0 as the code under test does when `dcep_unordered`.
 pub fn peer_chunks(sc: &[SChan], w: &[Sub], t0: u32, dcep_unordered: bool) -> Vec<DataC> {
+    peer_chunks_ex(sc, w, t0, dcep_unordered, false)
+}
+/// `dcep_whole`: DCEP messages are fragmented only at the 1172-byte limit, whatever the channel's fragment size
+pub fn peer_chunks_ex(sc: &[SChan], w: &[Sub], t0: u32, dcep_unordered: bool, dcep_whole: bool) -> Vec<DataC> {
     let mut out = vec![];
     let mut ssn: std::collections::HashMap<u16, u16> = Default::default();
     let mut tsn = t0;
@@ -469,7 +473,7 @@ pub fn peer_chunks(sc: &[SChan], w: &[Sub], t0: u32, dcep_unordered: bool) -> Ve
         let ch = sc.iter().find(|c| c.id == s.sid);
         let is_dcep = s.ppid == 50;
         let ordered = match ch { Some(c) => if is_dcep && dcep_unordered { false } else { c.ordered }, None => !(is_dcep && dcep_unordered) };
-        let mps = ch.map(|c| c.mps.min(1172)).unwrap_or(1172).max(1);
+        let mps = if is_dcep && dcep_whole { 1172 } else { ch.map(|c| c.mps.min(1172)).unwrap_or(1172).max(1) };
         let my_ssn = if ordered && ch.is_some() { let e = ssn.entry(s.sid).or_insert(0); let v = *e; *e = e.wrapping_add(1); v } else { 0 };
         let frags: Vec<&[u8]> = if s.data.is_empty() { vec![&s.data[..]] } else { s.data.chunks(mps).collect() };
         let n = frags.len();
